@@ -53,6 +53,10 @@ type AccumulatedIdleGpus struct {
 
 func NewIdleGpusFilter(
 	scenario *scenario.ByNodeScenario, nodeInfosMap map[string]*node_info.NodeInfo) *AccumulatedIdleGpus {
+	if scenario == nil {
+		// The scenario builder has no scenario when the pending job has no tasks left to allocate
+		return nil
+	}
 	idleGpusMap, relevantNodesSorted := createGpuMap(nodeInfosMap, len(scenario.PendingTasks()))
 
 	filter := &AccumulatedIdleGpus{
